@@ -338,6 +338,14 @@ def programs(nstmt, pool, flag_dev, lang_variants):
                     fs = ["0"] * k
                     fs[i] = fl
                     flagsets.append(fs)
+            if flag_dev == 1 and k >= 2:
+                # two adjacent lookups that differ ONLY in their mark filtering set / attachment
+                # class: nothing but the set separates them
+                for i in range(k - 1):
+                    for a, b in (("mfs", "mfs2"), ("mat", "mat2")):
+                        fs = ["0"] * k
+                        fs[i], fs[i + 1] = a, b
+                        flagsets.append(fs)
             if flag_dev == 2 and k >= 2:
                 for combo in itertools.product(*[flags_for(g[0]) for g in groups]):
                     if sum(1 for c in combo if c != "0") >= 2:
@@ -401,7 +409,11 @@ class Printer:
             k = tuple(v)
             if k not in self.values:
                 self.values[k] = "v%d" % len(self.values)
-                self.defs.append("valueRecordDef <%d %d %d %d> %s;" % (v[0], v[1], v[2], v[3], self.values[k]))
+                if v[0] == 0 and v[1] == 0 and v[3] == 0:
+                    # format A at file level: a horizontal advance wherever the name is used
+                    self.defs.append("valueRecordDef %d %s;" % (v[2], self.values[k]))
+                else:
+                    self.defs.append("valueRecordDef <%d %d %d %d> %s;" % (v[0], v[1], v[2], v[3], self.values[k]))
             return "<%s>" % self.values[k]
         if mode == "short" and v[0] == 0 and v[1] == 0 and v[3] == 0:
             return "%d" % v[2]
@@ -1186,8 +1198,8 @@ def fixed_point(rec, fkey, text_or_path, glyph_order, mkfont, is_path=False):
 class FixedPointGenerated(Unit):
     name = "fixedpoint-generated"
     rule = ("every distinct feature-file text printed for the programs of the shape unit (quick: all spellings of one-statement programs, base/blocks/named-contextual/two-feature spellings of unflagged two-statement programs; thorough: all spellings of unflagged and those four spellings of flagged / language-scoped <=2-statement programs): "
-            "t1=asFea(parse(t)) parses, asFea(parse(t1))==t1, and t and t1 compile to byte-identical tables; distinct = text")
-    required_witnesses = ("GSUB compared", "GPOS compared", "GDEF compared", "asFea changed the text")
+            "every text with a kern feature also with that feature renamed vkrn (vertical reading of one-number value records); t1=asFea(parse(t)) parses, asFea(parse(t1))==t1, and t and t1 compile to byte-identical tables; distinct = text")
+    required_witnesses = ("GSUB compared", "GPOS compared", "GDEF compared", "asFea changed the text", "vertical feature compared")
     chunk = 40
 
     def setup(self, tier, seed):
@@ -1222,6 +1234,18 @@ class FixedPointGenerated(Unit):
             seen.add(text)
             r = fixed_point(rec, "fixedpoint:%s:%s" % (fams_key(prog), spname), text, order, lambda: TTFont(io.BytesIO(base_font_bytes())))
             rec.evals(1)
+            if "feature kern {" in text:
+                # the same rules in a vertical feature: a one-number value record then means a vertical
+                # advance, while value records defined at file level keep their horizontal reading
+                vtext = text.replace("feature kern {", "feature vkrn {").replace("} kern;", "} vkrn;")
+                rv = fixed_point(rec, "fixedpoint:%s:%s:vertical" % (fams_key(prog), spname), vtext, order, lambda: TTFont(io.BytesIO(base_font_bytes())))
+                rec.evals(1)
+                if rv in ("unparsable", "uncompilable"):
+                    rec.violation("rejects:%s:%s:vertical" % (fams_key(prog), spname), "feaLib rejects a valid file (%s)\n%s" % (rv, vtext))
+                elif rv.startswith("ok:"):
+                    rec.nontrivial(vtext)
+                    rec.state(vtext)
+                    rec.witness("vertical feature compared")
             if r in ("unparsable", "uncompilable"):
                 rec.violation("rejects:%s:%s" % (fams_key(prog), spname), "feaLib rejects a valid file (%s)\n%s" % (r, text))
             elif r.startswith("ok:"):
